@@ -1380,6 +1380,27 @@ fn emit_fn(ctx: &mut Ctx, d: &FnDir, out: &mut String) {
         s.visit_block_mut(&mut block);
     }
 
+    // ---- opaque signature (opt-in, only with prefix=): every parameter that is not the runtime gets the placeholder type `VxOpaque`, and so
+    //      does the Ok type of the result. The kept prefix must not use them (else the file does not compile → UNDECIDED).
+    if d.opts.contains_key("opaque_sig") {
+        if prefix_dropped.is_none() {
+            die("opaque_sig requires prefix=");
+        }
+        for inp in sig.inputs.iter_mut() {
+            if let syn::FnArg::Typed(pt) = inp {
+                let t = pt.ty.to_token_stream().to_string().replace(' ', "");
+                if t != "&mutRt" && t != "&Rt" {
+                    *pt.ty = syn::parse_quote!(VxOpaque);
+                }
+            }
+        }
+        if let syn::ReturnType::Type(_, t) = &mut sig.output {
+            let ts = t.to_token_stream().to_string().replace(' ', "");
+            if ts.starts_with("Result<") {
+                **t = syn::parse_quote!(Result<VxOpaque, ActorError>);
+            }
+        }
+    }
     // ---- named return
     let retname = d.opts.get("ret").cloned().unwrap_or_else(|| "r".to_string());
     let ret_ts: TokenStream = match &sig.output {
